@@ -214,6 +214,7 @@ class State:
         self.pc = []
         self.visits = {}
         self.next_frame = 0
+        self.calls = []
 
     def clone(self):
         s = State()
@@ -222,6 +223,7 @@ class State:
         s.pc = list(self.pc)
         s.visits = dict(self.visits)
         s.next_frame = self.next_frame
+        s.calls = list(self.calls)
         return s
 
 
@@ -244,13 +246,16 @@ class Executor:
         self.unknown = []
         self.depth = 0
         self.obligations = []
+        self.axioms = []
+        self.trivial_obligations = 0
         self.hints = []
+        self.mir_text = None
         self.global_cells = {}  # lazily materialised initial memory behind references
 
     # ---- solver -------------------------------------------------------------
     def sat(self, conds):
         """None = unsat; dict (model over the named inputs) = sat; "unknown"."""
-        conds = [c for c in conds if not is_true(c)]
+        conds = [c for c in list(conds) + list(self.axioms) if not is_true(c)]
         for c in conds:
             if is_false(c):
                 return None
@@ -295,10 +300,11 @@ class Executor:
     def oblige(self, st, cond, kind, func, bb, msg, tag=None):
         """`cond` must hold on this path; otherwise record a finding. Continue under cond."""
         if is_true(cond):
+            self.trivial_obligations += 1
             return True
         r = self.sat(st.pc + [z3.Not(cond)])
         self.obligations.append({"kind": kind, "func": func, "bb": bb, "msg": msg, "tag": tag,
-                                 "query": list(st.pc) + [z3.Not(cond)],
+                                 "query": list(st.pc) + list(self.axioms) + [z3.Not(cond)],
                                  "verdict": "unsat" if r is None else ("unknown" if r == "unknown" else "sat")})
         if r is not None:
             if r != "unknown" and self.hints:
@@ -400,6 +406,11 @@ class Executor:
             if v.kind == "elem":
                 vec = v.a if not isinstance(v.a, VRef) else self.deref(st, v.a)
                 return self.select(vec, v.b)
+            if v.kind == "proj":
+                val = self.deref(st, v.a)
+                for p in v.b:
+                    val = self.project(st, val, p, "deref-proj")
+                return val
         if isinstance(v, VOpaque):
             if "*" in v.over:
                 return v.over["*"]
@@ -499,11 +510,16 @@ class Executor:
                 cur = st.cells[ref.a] if ref.a in st.cells else self.global_cells[ref.a]
                 st.cells[ref.a] = self.update(st, cur, proj, val, None, f)
                 return
+            if ref.kind == "proj":
+                self.write_ref(st, ref.a, list(ref.b) + list(proj), val, f)
+                return
             if ref.kind == "elem":
                 # element of a vector held behind another ref
                 vecref = ref.a
                 if isinstance(vecref, VRef):
                     vec = self.deref(st, vecref)
+                    if isinstance(vec, VSlice):
+                        vec = vec.vec
                     newvec = self.store(st, vec, ref.b, proj, val, None, f)
                     self.write_ref(st, vecref, [], newvec, f)
                     return
@@ -531,7 +547,28 @@ class Executor:
             return VInt(z3.BitVecVal(int(text), bits), bits, signed)
         if text == "()":
             return VUnit()
-        return VOpaque(t or "?", "const:" + text[:60])
+        if "::promoted[" in text and self.mir_text:
+            v = self.promoted(text)
+            if v is not None:
+                return v
+        return VOpaque(t or "?", "const:" + text)
+
+    def promoted(self, text):
+        """Value of a promoted constant such as `&&0_usize` (looked up in the MIR dump)."""
+        name = re.sub(r"::<[^>]*>", "", text.strip())
+        m = re.search(r"^const %s: ([^=]+) = \{(.*?)^\}" % re.escape(name), self.mir_text, re.S | re.M)
+        if not m:
+            return None
+        ty, body = m.group(1).strip(), m.group(2)
+        lit = re.search(r"= const (-?\d+)_(\w+);", body)
+        if not lit or lit.group(2) not in INT_TYPES:
+            return None
+        bits, signed = INT_TYPES[lit.group(2)]
+        v = VInt(z3.BitVecVal(int(lit.group(1)), bits), bits, signed)
+        depth = len(re.match(r"^(&(?:'\w+ )?)*", ty).group(0).replace("'static ", "").replace(" ", ""))
+        for _ in range(ty.count("&")):
+            v = VRef("val", v)
+        return v
 
     def operand(self, st, frame, op, f, want_ty=None):
         if op[0] in ("copy", "move"):
@@ -662,14 +699,18 @@ class Executor:
                         return VRef("local", base.a, base.b, list(base.c) + list(rest))
                     if not rest:
                         return base
-                    # fall back: reference to the current value (reads only)
-                    return VRef("val", self.read_place(st, frame, pl, f))
+                    if any(p[0] == "deref" for p in rest):
+                        return VRef("val", self.read_place(st, frame, pl, f))
+                    # reference to a projection of whatever `base` points to
+                    return VRef("proj", base, list(rest))
             return VRef("local", frame, pl.local, list(pl.proj))
         if k == "discriminant":
             v = self.read_place(st, frame, rv[1], f)
             return self.discriminant(v)
         if k == "tuple":
             return VAgg("tuple", None, [self.operand(st, frame, o, f) for o in rv[1]])
+        if k == "array":
+            return VVec([self.operand(st, frame, o, f) for o in rv[1]])
         if k == "adt":
             path, variant, flds = rv[1], rv[2], rv[3]
             vals = [self.operand(st, frame, o, f) for (_, o) in flds]
@@ -708,6 +749,17 @@ class Executor:
                 c = z3.BitVec(v.name + ".discr", 64)
                 self.inputs[v.name + ".discr"] = c
                 v.memo["#d"] = VInt(c, 64, True)
+                # a value of an enum type holds one of its variants
+                tn = re.sub(r"^(std|core)::\w+::", "", (v.ty or "").strip())
+                m = re.match(r"(\w+)", tn)
+                nvar = None
+                if m:
+                    if m.group(1) in ("Option", "Result", "ControlFlow"):
+                        nvar = 2
+                    elif m.group(1) in self.enums:
+                        nvar = len(self.enums[m.group(1)])
+                if nvar:
+                    self.axioms.append(z3.And(c >= 0, c < nvar))
             return v.memo["#d"]
         raise PathEnd("discriminant of %r" % (v,))
 
@@ -827,6 +879,7 @@ class Executor:
             dest_ty = None
             if dest is not None:
                 dest_ty = f.locals.get(dest.local) if not dest.proj else None
+            st.calls.append((normalize_callee(callee), argvals, f.name, bb))
             outs = self.call(st, f, bb, callee, argvals, dest_ty)
             for (s2, val) in outs:
                 if ret_bb is None:
@@ -864,8 +917,66 @@ class Executor:
             return [(st, None)]
         return [(st, self.fresh(dest_ty, self.fresh_name("ret:" + normalize_callee(callee)[:40]), st))]
 
+    def closure_function(self, clos):
+        """MIR function of a closure value (matched by the `{closure@file:l:c: l:c}` type text)."""
+        path = None
+        if isinstance(clos, VAgg):
+            path = clos.path
+        elif isinstance(clos, VOpaque):
+            path = clos.ty if "{closure@" in (clos.ty or "") else clos.name
+        if isinstance(clos, VRef):
+            return None
+        if not path:
+            return None
+        m = re.search(r"\{closure@[^}]*\}", path)
+        if not m:
+            return None
+        key = m.group(0)
+        for name, fn in self.funcs.items():
+            if fn.args and key in fn.args[0][1]:
+                return fn
+        return None
+
+    def call_closure(self, st, clos, args):
+        """Call closure value `clos` with positional args; returns [(state, value)]."""
+        inner = clos
+        if isinstance(inner, VRef):
+            inner = self.deref(st, inner)
+        fn = self.closure_function(inner)
+        if fn is None:
+            # function items / fn pointers: `const path::to::fn`
+            if isinstance(inner, VOpaque) and inner.name.startswith("const:"):
+                target = self.resolve(inner.name[6:])
+                if target is not None:
+                    self.stats.inlined.add(target.name)
+                    amap = {idx: v for (idx, ty), v in zip(target.args, args)}
+                    return self.exec_function(target, amap, st)
+            raise PathEnd("cannot resolve closure %r" % (inner,))
+        self.stats.inlined.add(fn.name)
+        amap = {}
+        # closure MIR: _1 is the closure (by ref for Fn/FnMut, by value for FnOnce), the rest are the arguments
+        first_ty = fn.args[0][1]
+        amap[fn.args[0][0]] = VRef("val", inner) if first_ty.startswith("&") else inner
+        for (idx, ty), v in zip(fn.args[1:], args):
+            amap[idx] = v
+        self.depth += 1
+        try:
+            if self.depth > 8:
+                raise PathEnd("closure recursion too deep")
+            return self.exec_function(fn, amap, st)
+        finally:
+            self.depth -= 1
+
     def resolve(self, callee):
         c = callee.strip()
+        m = re.match(r"<(\w+)(?:<.*>)? as [\w:<>, ']+>::(\w+)$", c)
+        if m:
+            ty, meth = m.group(1), m.group(2)
+            cands = [fn for name, fn in self.funcs.items() if name.endswith("::" + meth)
+                     and re.search(r"\b%s\b" % ty, (fn.args[0][1] if fn.args else "") + " " + (fn.ret or ""))]
+            if len(cands) == 1:
+                return cands[0]
+            return None
         # exact or suffix match on function names in the dump
         cands = [fn for name, fn in self.funcs.items() if name == c or name.endswith("::" + c.split("::")[-1]) and c.split("::")[-1] == name.split("::")[-1]]
         if len(cands) == 1:
@@ -874,7 +985,7 @@ class Executor:
         m = re.match(r"(\w+)(?:::<.*>)?::(\w+)$", c)
         if m:
             ty, meth = m.group(1), m.group(2)
-            cands = [fn for name, fn in self.funcs.items() if name.endswith("::" + meth) and fn.args and re.search(r"\b%s\b" % ty, fn.args[0][1] + fn.ret)]
+            cands = [fn for name, fn in self.funcs.items() if name.endswith("::" + meth) and fn.args and re.search(r"\b%s\b" % ty, fn.args[0][1] + " " + (fn.ret or ""))]
             if len(cands) == 1:
                 return cands[0]
         return None
@@ -927,4 +1038,6 @@ def ite_value(cases, default):
         return default
     if isinstance(default, VOpaque):
         return default
+    if isinstance(default, VRef) and default.kind == "val":
+        return VRef("val", ite_value([(c, v.a) for c, v in cases], default.a))
     raise PathEnd("ite over %r" % (default,))
